@@ -21,7 +21,7 @@ import numpy as np
 from acnportal.acnsim.network import ChargingNetwork, Current
 from acnportal.acnsim.models.evse import EVSE
 
-from mc.core import Acc
+from mc.core import Acc, guard
 
 ID = "C12"
 LEVEL = "model_checking"
@@ -212,6 +212,7 @@ def step(st: State, op, viol):
                 try:
                     cur = ev_real(e)
                 except Exception as exc:
+                    guard(exc)
                     viol.append(("algebra:exception:%s" % shape(e), "evaluating the Current expression %s raised %r" % (e, exc), repr(exc), coefs))
                     return None
                 if cur is None:
@@ -254,6 +255,7 @@ def step(st: State, op, viol):
                 try:
                     cur = ev_real(e)
                 except Exception as exc:
+                    guard(exc)
                     viol.append(("algebra:exception:%s" % shape(e), "evaluating %s raised %r" % (e, exc), repr(exc), coefs))
                     return None
                 if cur is None:
@@ -285,6 +287,7 @@ def step(st: State, op, viol):
                     net.register_evse(EVSE(x, max_rate=32), ST[x][0], ST[x][1])
                     accepted = True
                 except Exception as exc:
+                    guard(exc)
                     accepted = False
                     if type(exc).__name__ != "EVSERegistrationError":
                         viol.append(("register:wrong-exception", "register_evse raised %r" % (exc,), repr(exc), "EVSERegistrationError"))
@@ -306,6 +309,7 @@ def step(st: State, op, viol):
             else:
                 raise ValueError(op)
         except Exception as exc:
+            guard(exc)
             viol.append(("exception:%s:%s" % (kind, type(exc).__name__), "operation %s raised %r" % (op, exc), repr(exc), None))
             return None
     n0 = len(viol)
@@ -387,6 +391,7 @@ def check_state(s: State, viol, op):
             try:
                 got = np.asarray(net.constraint_current(sched, constraints=sub, time_indices=ts))
             except Exception as exc:
+                guard(exc)
                 viol.append(("constraint_current:exception", "constraint_current(constraints=%s,time_indices=%s) raised %r" % (sub, ts, exc), repr(exc), None))
                 return
             if got.shape != (len(rows_i), len(cols)):
